@@ -79,6 +79,8 @@ class UserCode:
         self.scribble = False
         self.reuse_buf = False
         self._buf = None
+        self.fun_buffer = False
+        self._fbuf = None
 
     def f_pure(self, x):
         return float(0.5 * x.dot(self.a @ x) + np.sum(self.w * np.sin(x)))
@@ -94,6 +96,11 @@ class UserCode:
         self.completed.append(self.fun_calls[-1])
         if self.scribble:
             x[:] = 12345.678
+        if self.fun_buffer:
+            if self._fbuf is None:
+                self._fbuf = np.empty(1)
+            self._fbuf[0] = v  # one preallocated output array, reused by every call
+            return self._fbuf
         return v
 
     def grad(self, x):
@@ -201,6 +208,8 @@ def run_history(mode, n, pseed, bounds_kind, fd_opts, ops, stats):
             elif what == "mutate_returned" and last_grad[0] is not None:
                 # the caller works in place on the gradient array it was handed (as the solver does)
                 last_grad[0][:] = last_grad[0] * -3.0 + 1.0
+            elif what == "fun_buffer_on":
+                user.fun_buffer = True
             elif what == "scribble_on":
                 user.scribble = True
             elif what == "reuse_buf_on" and not fd:
@@ -364,7 +373,7 @@ def gen(rng, tier, index):
             if r < 0.12:
                 ops.append({"op": "set_scale", "s": float(choice(rng, [1.0, 2.0, 0.5, 3.7, 1e-3, 1e3]))})
             elif r < 0.3:
-                ops.append({"op": "fault", "what": str(choice(rng, ["mutate_passed_array", "mutate_returned", "mutate_returned", "scribble_on", "reuse_buf_on", "raise_next_fun", "raise_next_grad"])), "skip": int(rng.integers(0, 3))})
+                ops.append({"op": "fault", "what": str(choice(rng, ["mutate_passed_array", "mutate_returned", "mutate_returned", "scribble_on", "reuse_buf_on", "fun_buffer_on", "raise_next_fun", "raise_next_grad"])), "skip": int(rng.integers(0, 3))})
             else:
                 p = choice(rng, [0, 1, 2, 0, 1, 2, "fresh", "live0", "live1", "twin0", "twin1", "near0", "near2"])
                 ops.append({"op": str(choice(rng, OPS)), "p": p, "as": str(choice(rng, ["copy", "copy", "view", "keep", "float32", "readonly", "list"]))})
